@@ -16,28 +16,35 @@ pub struct FlowOut {
 }
 
 #[derive(Clone)]
-struct Ctx {
+pub struct Ctx {
     /// readable but never assigned by generated code (loop counters)
-    consts: Vec<String>,
-    ints: Vec<String>,
-    lists: Vec<String>,
+    pub consts: Vec<String>,
+    pub ints: Vec<String>,
+    pub lists: Vec<String>,
+    /// lists that are only read (outer lists seen from code that must not write outside)
+    pub ro_lists: Vec<String>,
+    /// two-argument functions usable as infix operators in chains
+    pub ops: Vec<String>,
     /// (name, min args, max args; usize::MAX = variadic)
-    funcs: Vec<(String, usize, usize)>,
-    loop_depth: usize,
-    in_lambda: bool,
+    pub funcs: Vec<(String, usize, usize)>,
+    pub loop_depth: usize,
+    pub in_lambda: bool,
 }
 
-struct FlowGen {
-    rng: Rng,
-    next: usize,
-    budget: i64,
-    has_print: bool,
-    features: Vec<&'static str>,
-    fault: bool,
+pub struct FlowGen {
+    pub rng: Rng,
+    pub next: usize,
+    pub budget: i64,
+    pub has_print: bool,
+    pub features: Vec<&'static str>,
+    pub fault: bool,
+    /// for bodies that will be frozen: no eval (its text is resolved at call time by design) and
+    /// no statements that write variables of the session
+    pub frozen_body: bool,
 }
 
 impl FlowGen {
-    fn fresh(&mut self, p: &str) -> String {
+    pub fn fresh(&mut self, p: &str) -> String {
         self.next += 1;
         format!("{}{}", p, self.next)
     }
@@ -45,7 +52,7 @@ impl FlowGen {
         self.budget -= n;
         self.budget > 0
     }
-    fn feat(&mut self, f: &'static str) {
+    pub fn feat(&mut self, f: &'static str) {
         self.features.push(f);
     }
 
@@ -53,7 +60,7 @@ impl FlowGen {
         int(self.rng.range(0, 9))
     }
 
-    fn int_expr(&mut self, ctx: &Ctx, d: usize) -> Ex {
+    pub fn int_expr(&mut self, ctx: &Ctx, d: usize) -> Ex {
         if d == 0 || !self.spend(1) {
             return if !ctx.consts.is_empty() && self.rng.chance(1, 4) {
                 var(&self.rng.pick(&ctx.consts).clone())
@@ -145,6 +152,24 @@ impl FlowGen {
                 self.switch_expr(ctx, d)
             }
             _ => {
+                if self.frozen_body || self.rng.chance(1, 2) {
+                    // an unparenthesised chain: grouping by the operators' run-time precedence
+                    self.feat("chain");
+                    let n = 2 + self.rng.below(2);
+                    let first = self.int_expr(ctx, 0);
+                    let mut rest = Vec::new();
+                    for _ in 0..n {
+                        let op = if !ctx.ops.is_empty() && self.rng.chance(1, 4) {
+                            self.rng.pick(&ctx.ops).clone()
+                        } else {
+                            self.rng.pick(&["+", "-", "*", "+", "*"]).to_string()
+                        };
+                        // keep products small: literals next to `*`
+                        let operand = if op == "*" { self.int_lit() } else { self.int_expr(ctx, 0) };
+                        rest.push((op, operand));
+                    }
+                    return Ex::Chain(Box::new(first), rest);
+                }
                 self.feat("eval");
                 // evaluated at the call site: sees the same variables
                 let inner = self.int_expr(ctx, d.min(2) - 1);
@@ -201,7 +226,9 @@ impl FlowGen {
 
     fn list_expr(&mut self, ctx: &Ctx, d: usize) -> Ex {
         if d == 0 || !self.spend(1) {
-            return if !ctx.lists.is_empty() && self.rng.chance(2, 3) {
+            return if !ctx.ro_lists.is_empty() && self.rng.chance(1, 3) {
+                var(&self.rng.pick(&ctx.ro_lists).clone())
+            } else if !ctx.lists.is_empty() && self.rng.chance(2, 3) {
                 var(&self.rng.pick(&ctx.lists).clone())
             } else {
                 Ex::List((0..self.rng.below(4)).map(|_| self.int_lit()).collect())
@@ -299,17 +326,27 @@ impl FlowGen {
         } else {
             self.int_expr(&inner, d.saturating_sub(1).min(2))
         };
-        // `into`: only forms that keep the result a list here
-        let into = if self.rng.chance(1, 6) {
+        // `into`: only forms that keep the result a list here (more often next to a `break value`:
+        // the function is applied to whatever the loop evaluates to)
+        let has_break = matches!(&body, Ex::If(_, b, _) if matches!(&**b, Ex::Break(..)));
+        let into = if self.rng.chance(1, if has_break { 2 } else { 6 }) {
             self.feat("into");
-            Some(var(*self.rng.pick(&["sort", "reverse", "id"])))
+            if self.rng.chance(1, 2) {
+                // a function that visibly changes whatever it is applied to
+                Some(Ex::Lambda(
+                    vec![lv("res")],
+                    Box::new(bin(var("res"), "++", Ex::List(vec![call("len", vec![var("res")])]))),
+                ))
+            } else {
+                Some(var(*self.rng.pick(&["sort", "reverse", "id"])))
+            }
         } else {
             None
         };
         Ex::For(cl, Box::new(ForBody::Yield(body, into)))
     }
 
-    fn lambda(&mut self, ctx: &Ctx, d: usize) -> (Ex, usize, usize) {
+    pub fn lambda(&mut self, ctx: &Ctx, d: usize) -> (Ex, usize, usize) {
         let mut c = ctx.clone();
         c.loop_depth = 0;
         c.in_lambda = true;
@@ -317,18 +354,35 @@ impl FlowGen {
         let n = self.rng.below(3);
         let mut lo = 0;
         let mut hi = 0;
-        for _ in 0..n {
-            let p = self.fresh("a");
+        let mut shadowed: Option<String> = None;
+        for k in 0..n {
+            // sometimes a parameter shadows an outer variable of the same name
+            let outer_names: Vec<String> = ctx.consts.iter().chain(ctx.ints.iter()).cloned().collect();
+            let p = if k == 0 && !outer_names.is_empty() && self.rng.chance(1, 4) {
+                self.feat("param-shadows-outer");
+                let nm = self.rng.pick(&outer_names).clone();
+                shadowed = Some(nm.clone());
+                nm
+            } else {
+                self.fresh("a")
+            };
             params.push(lv(&p));
-            c.ints.push(p);
+            if !c.ints.contains(&p) {
+                c.ints.push(p.clone());
+            }
+            c.consts.retain(|x| x != &p);
             lo += 1;
             hi += 1;
         }
-        if self.rng.chance(1, 4) {
+        if self.rng.chance(1, 4) || (shadowed.is_some() && self.rng.chance(1, 2)) {
             self.feat("lambda-default");
             let p = self.fresh("a");
-            // defaults only see outer names
-            let dflt = self.int_expr(ctx, 1);
+            // defaults are evaluated before any parameter is bound: they only see outer names, also
+            // when a parameter has the same name
+            let dflt = match &shadowed {
+                Some(nm) if self.rng.chance(2, 3) => bin(var(nm), "+", int(100)),
+                _ => self.int_expr(ctx, 1),
+            };
             params.push(Lv::Default(Box::new(lv(&p)), Box::new(dflt)));
             c.ints.push(p);
             hi += 1;
@@ -472,7 +526,7 @@ impl FlowGen {
             }
             7 => {
                 // a closure per loop iteration escapes through the session list `fs`
-                if ctx.ints.is_empty() {
+                if ctx.ints.is_empty() || self.frozen_body {
                     return self.simple_stmt(ctx);
                 }
                 self.feat("escaping-closure");
@@ -647,11 +701,14 @@ pub fn generate(seed: u64, fault_free: bool) -> FlowOut {
         has_print: false,
         features: Vec::new(),
         fault: !fault_free,
+        frozen_body: false,
     };
     let mut ctx = Ctx {
         consts: Vec::new(),
         ints: Vec::new(),
         lists: Vec::new(),
+        ro_lists: Vec::new(),
+        ops: Vec::new(),
         funcs: Vec::new(),
         loop_depth: 0,
         in_lambda: false,
